@@ -1,13 +1,15 @@
 (** C03 — model of the match conditions of a route and of the captured path
-    values, faithful to the Go code AS IT IS (defects included):
+    values, faithful to the Go code, parametric in the repair of each finding (all flags true / D8 =
+    the code as it is now; a flag false / D0, D7 = the tree before the fix: commit named at the flag):
 
     - internal/rules/route_matcher.go   createMethodMatcher, schemeMatcher, methodMatcher,
                                          hostMatcher, pathParamMatcher, compositeMatcher,
                                          createHostMatcher, createPathParamsMatcher
     - internal/rules/typed_matcher.go   exact (modelled), glob / regex (oracle [eng], compile flag is data)
     - internal/rules/rule_factory_impl.go  CreateRule: matcher assembly, default slash setting
-    - internal/x/radixtree/tree.go      addNode, splitCommonPrefix, Add, findNode, Find  (no delete, no priorities)
-    - internal/rules/repository_impl.go FindRule (lookup path choice, Captures := Parameters), addRulesTo
+    - internal/x/radixtree/tree.go      addNode, splitCommonPrefix, Add, findNode, Find  (no priorities; Delete:
+                                         C06/TreeDel.v on the shared tree, read by C03/ReachConv.v [conv])
+    - internal/rules/repository_impl.go FindRule (lookup path choice, Captures := the entry's name/value map), addRulesTo
     - internal/rules/rule_impl.go       Execute (encoded-slash switch, capture decoding), unescape
 
     Go panics are explicit ([MPanic], [FPanic]).  Nothing is proved here. *)
@@ -114,8 +116,8 @@ Fixpoint protect2_aux (skip : nat) (s : string) : string :=
 
 (** The variants of the slash-preserving decoder.  [D0]: the pinned tree (only "%2F" is
     recognised, place-holder technique).  [D7]: after the repair of C03-F7 / C08-F2 (commit
-    a779db8): both spellings of an encoded slash are recognised.  [D8]: additionally the candidate
-    repair fixes/C03-F8.diff (= C08-F5): no place-holder; the value is cut at the encoded slashes,
+    a779db8): both spellings of an encoded slash are recognised.  [D8]: additionally the repair of
+    C03-F8 (= C08-F5, commit 6d0a3af; the code as it is): no place-holder; the value is cut at the encoded slashes,
     the pieces are decoded and joined with "%2F".  The parameter is called [fx7] throughout. *)
 Inductive dec := D0 | D7 | D8.
 Definition is7 (d : dec) : bool := match d with D0 => false | _ => true end.
@@ -165,7 +167,7 @@ Fixpoint decode_parts (l : list string) : option (list string) :=
               end
   end.
 
-(** [unescapeExceptSlashes] of fixes/C03-F8.diff *)
+(** [unescapeExceptSlashes] (since commit 6d0a3af) *)
 Definition nd_split (v : string) : string :=
   match decode_parts (split_on "%2F" (replace_all v "%2f" "%2F")) with
   | Some ds => join_with "%2F" ds
@@ -215,7 +217,7 @@ Definition subtract (a b : list string) : list string := filter (fun x => negb (
 Definition expand_all (ms : list string) : list string :=
   if mem "ALL" ms then filter (fun m => negb (String.eqb m "ALL")) ms ++ nine else ms.
 
-(** [fx4]: the candidate repair fixes/C03-F4.diff (a non-empty list that allows no method is
+(** [fx4]: the repair of C03-F4, commit 22bae5e (a non-empty list that allows no method is
     a configuration error instead of an empty matcher, which allows every method) *)
 Definition create_method_matcher (fx4 : bool) (ms : list string) : res (list string) :=
   if is_nil ms then Ok [] else
@@ -303,7 +305,7 @@ Definition method_match (l : list string) (q : request) : bool :=
   is_nil l || mem (q_method q) l.
 
 (** createHostMatcher returns a compositeMatcher: EVERY host expression must match.
-    [fx1]: the candidate repair fixes/C03-F1.diff (two or more expressions are wrapped into an
+    [fx1]: the repair of C03-F1, commit 6793b33 (two or more expressions are wrapped into an
     anyOfMatcher: ONE of them must match) *)
 Definition hosts_match (fx1 : bool) (eng : engine) (hs : list tmdef) (q : request) : bool :=
   if fx1 && (2 <=? length hs)%nat then existsb (fun h => tm_match eng true h (q_host q)) hs
@@ -415,7 +417,7 @@ Definition is_special (c : ascii) : bool :=
   Ascii.eqb c "*" || Ascii.eqb c ":" || Ascii.eqb c "\".
 
 (** addNode; [fin] is what [Add] does with the node reached (options, append).
-    [fx3]: the candidate repair fixes/C03-F3.diff (a free wildcard whose earlier wildcard
+    [fx3]: the repair of C03-F3, commit 20f92b3 (a free wildcard whose earlier wildcard
     names differ from the ones recorded at the catch-all child is rejected, as for a leaf). *)
 Fixpoint add_node (fx3 : bool) (fuel : nat) (n : tree) (path : string) (wk : list string) (in_static : bool)
          (fin : tree -> tree) : ares :=
@@ -597,7 +599,7 @@ Fixpoint find_node (fx2 fx5 : bool) (m : nat -> list string -> list string -> mr
     end
   end.
 
-(** Entry.Parameters as an association list in insertion order (a later equal key wins) *)
+(** the name/value map of the entry [Find] returns, as an association list in insertion order (a later equal key wins) *)
 Fixpoint params_of (keys params : list string) : option (list (string * string)) :=
   match params with
   | [] => Some []
@@ -809,7 +811,7 @@ Definition outcome_eqb (a b : outcome) : bool :=
 (** Requests served one after the other by ONE instance of the loaded rule set.  The code keeps no state
     between lookups (matchers, tree and rules are read-only after AddRuleSet), so the model of a sequence
     is the map of the model of one request; that the implementation really behaves like this - that no
-    matcher remembers anything - is what the sequence stream of the check observes. *)
+    matcher remembers anything - is what the check observes on every case (same instance vs instance built anew). *)
 Definition serve_seq (fx1 fx2 fx5 fx6 : bool) (fx7 : dec) (eng : engine) (es : list centry) (t : tree)
            (qs : list request) : list (outcome * list call) :=
   map (serve fx1 fx2 fx5 fx6 fx7 eng es t) qs.
